@@ -390,6 +390,9 @@ def table_rule(ctx: Ctx, rule: str, fref: str, views: list[PathView], spec: Tabl
     covered: dict[tuple, set] = {}
     for view in views:
         conds = [view.cond_formula(i) for i, st in enumerate(view.steps) if st.kind == "cond"]
+        if ignore_atoms is not None:
+            # conditions over state the table does not model (e.g. a work list re-tested after it was mutated) are left out
+            conds = [c for c in conds if not any(ignore_atoms(a) for a in norm.atoms_of(c))]
         formulas = list(conds)
         if view.path.exit == "return" and view.path.exit_node.value is not None:
             formulas.append(view.formula_of(view.path.exit_node.value, len(view.steps)))
